@@ -47,7 +47,7 @@ def main(ctx, replay=None):
     ctx.cov["rule"] = ("states of the supplied-subset lattice (TLC dump) x value class (consistent / grossly inconsistent by 50 GPa) x "
                        "ignore flags x environment (column order, case, int columns, extra columns, cwd entry named like the system, "
                        "relations file path); a case is the tuple; non-trivial = not (fully supplied, consistent, default flags)")
-    ctx.assumptions += ["inconsistencies between 0 and the tolerance, and (under-determined, inconsistent, ignore_rank) are not generated",
+    ctx.assumptions += ["inconsistencies between 0 and the tolerance, (under-determined, inconsistent, ignore_rank) and the empty table are not generated",
                         "'raises' = any exception"]
     results, exports = fillspec.run_c08(ctx)
     bad = [s for s, r in results.items() if not r.ok]
@@ -81,6 +81,8 @@ def main(ctx, replay=None):
                 else:
                     picks.append(max(cand, key=len))           # just one component short
                 for S in picks:
+                    if not S:
+                        continue         # a table without any modulus column is not a static table: outside the property's domain
                     run_case(ctx, rng, pandas, s, S, det, tensors, nonvan, e, relrows, outcome, tmp)
         ctx.sample({"outcome_table_rows": 16, "lattice_states": len(table)})
         clause_cases(ctx, rng, pandas, exports, by, outcome)
